@@ -191,7 +191,7 @@ class SAMIReader(BaseReader):
         captions = CaptionList(layout_info=parent_layout)
         milliseconds = 0
 
-        for p in sami_soup.select(f'p[lang|={language}]'):
+        for p in sami_soup.find_all('p', attrs={'lang': language}):
             start_str = p.parent.get('start')
             if not start_str:
                 raise CaptionReadTimingError(
@@ -665,6 +665,8 @@ class SAMIParser(HTMLParser):
 
             # if no language detected, set it as the default
             lang = lang or DEFAULT_LANGUAGE_CODE
+            # the tag carries exactly one lang attribute: the resolved language
+            attrs = [(a, v) for a, v in attrs if a.lower() != 'lang']
             attrs.append(('lang', lang))
             if lang not in self.langs:
                 self.langs.append(lang)
